@@ -47,6 +47,53 @@ type Generated struct {
 	Format Format
 	Log    Log
 	Txns   []AbortedTxn
+	// LogStart > 0: the head of the log was deleted (retention / DeleteRecords); Open lists the transactions
+	// (producer id, original first offset) that were open at that point
+	LogStart int64
+	Open     [][2]int64
+}
+
+// Truncate deletes the first k stored units: the broker's log start offset moves to the first remaining unit,
+// transactions that were open there keep their original first offset in the aborted-transaction index.
+func (g Generated) Truncate(k int) Generated {
+	if k <= 0 || k >= len(g.Log) {
+		return g
+	}
+	open := map[int64]int64{}
+	var order []int64
+	for _, u := range g.Log[:k] {
+		if u.B == nil {
+			continue
+		}
+		b := u.B
+		switch {
+		case b.Control && b.CtrlType != 2:
+			delete(open, b.PID)
+		case !b.Control && b.Txn:
+			if _, ok := open[b.PID]; !ok {
+				open[b.PID] = b.First
+				order = append(order, b.PID)
+			}
+		}
+	}
+	out := g
+	out.Log = g.Log[k:]
+	out.LogStart = out.Log[0].Lo()
+	out.Open = nil
+	out.Txns = nil
+	for _, t := range g.Txns {
+		if t.Marker >= out.LogStart { // transactions that ended in the deleted head are gone from the broker's index
+			out.Txns = append(out.Txns, t)
+		}
+	}
+	seen := map[int64]bool{}
+	for _, p := range order {
+		if f, ok := open[p]; ok && !seen[p] {
+			seen[p] = true
+			out.Open = append(out.Open, [2]int64{p, f})
+		}
+	}
+	return out
 }
 
 var codecs = []sarama.CompressionCodec{sarama.CompressionNone, sarama.CompressionGZIP, sarama.CompressionSnappy, sarama.CompressionLZ4, sarama.CompressionZSTD}
